@@ -93,9 +93,9 @@ def apply_and_check(params, text, doc, pi, op, ki, value):
     # set / add
     try:
         lib_para[key] = value
-    except ValueError:
-        require(doc.dump() == before, "document changed by a rejected value", value=value)
-        raise Skip("value rejected by the API")
+    except ValueError as e:
+        # every value this harness generates is a well-formed single- or two-line value
+        require(False, "a well-formed value was rejected: %s" % e, key=key, value=value)
     got = doc.dump()
     if fi >= 0:
         f = para[fi]
